@@ -791,20 +791,22 @@ def r7(ctx):
 
     conditional = []
 
-    def follow(stmts):
+    def follow(stmts, inside=False):
         """statements executed when self.fake_intercept is true (other tests: both arms refused unless they return / are data-free)"""
         out = []
         for st in stmts:
             if isinstance(st, ast.If):
                 t = U(st.test).replace(" ", "")
                 if t == "self.fake_intercept":
-                    out += follow(st.body)
+                    out += follow(st.body, True)
                     continue
                 if t == "notself.fake_intercept":
-                    out += follow(st.orelse)
+                    out += follow(st.orelse, True)
                     continue
                 if st.body and isinstance(st.body[-1], (ast.Return, ast.Raise)) and not st.orelse:
-                    continue            # an early exit on another condition (no data yet)
+                    if inside:
+                        conditional.append("not (" + U(st.test) + ")")      # an exit inside the arm skips the recomputation
+                    continue            # before the arm: an early exit on another condition (no data yet)
                 if any(isinstance(x, ast.Assign) and any(U(t_) == "self.alpha" for t_ in x.targets) for x in ast.walk(st)):
                     conditional.append(U(st.test))     # the intercept is (re)computed only under a further test
                     continue
@@ -839,6 +841,9 @@ def r7(ctx):
             deltas.append(S().visit(copy.deepcopy(st.value)))
         elif isinstance(st, ast.AugAssign) and U(st.target) == "self.Mu" and isinstance(st.op, ast.Sub):
             deltas.append(ast.UnaryOp(op=ast.USub(), operand=S().visit(copy.deepcopy(st.value))))
+        elif isinstance(st, ast.Assign) and len(st.targets) == 1 and isinstance(st.targets[0], ast.Attribute) and U(st.targets[0].value) == "self" \
+                and st.targets[0].attr not in ("alpha", "Mu"):
+            continue            # bookkeeping on another attribute: neither the intercept nor the fitted values
         elif isinstance(st, (ast.Return, ast.Pass)) or (isinstance(st, ast.Expr) and isinstance(st.value, ast.Call) and U(st.value.func).split(".")[0] in ("logger", "logging", "warnings")):
             continue
         else:
